@@ -121,6 +121,14 @@ def run_case(ri):
             if not np.array_equal(np.asarray(a1[0]), keep1, equal_nan=True):
                 probs.append('args: the array returned by the first call was changed by the second call of the same object')
             b2 = nd.Derivative(g, n=r['n'], method=r['m'], order=r['o'], full_output=True)(xx, -0.5)
+            # ... and the same ARRAY after it was changed in place (an object must not remember anything about an earlier x)
+            xw = np.array(vals).reshape(shape)
+            w1 = dd(xw, 1.0)
+            xw += 0.37
+            w2 = dd(xw, 1.0)
+            f2 = nd.Derivative(g, n=r['n'], method=r['m'], order=r['o'], full_output=True)(np.array(vals).reshape(shape) + 0.37, 1.0)
+            if not (same(w2[0], f2[0]) and same(w2[1].error_estimate, f2[1].error_estimate) and same(w2[1].f_value, f2[1].f_value)):
+                probs.append('args: the same object called again after x was changed in place gives %r, a fresh object %r' % (np.ravel(w2[0])[:3].tolist(), np.ravel(f2[0])[:3].tolist()))
             # a single extra argument whose VALUE is a tuple (or a list) is one argument
             gt = lambda z, pair, t=0.0: fun(z) * pair[0] + pair[1] * t
             t1 = nd.Derivative(gt, n=r['n'], method=r['m'], order=r['o'], full_output=True)(xx, (2.0, 5.0))
